@@ -5,7 +5,7 @@ use crate::{
     error::{err, ErrorContext},
     fmt::{friendly, temporal},
     tz::Offset,
-    util::{escape, rangeint::TryRFrom, t},
+    util::{escape, t},
     Error, RoundMode, Timestamp, Unit, Zoned,
 };
 
@@ -2506,21 +2506,24 @@ impl SignedDurationRound {
             increment,
         );
 
-        let seconds = rounded / t::NANOS_PER_SECOND;
-        let seconds =
-            t::NoUnits::try_rfrom("seconds", seconds).map_err(|_| {
-                err!(
-                    "rounding `{dur:#}` to nearest {singular} in increments \
-                     of {increment} resulted in {seconds} seconds, which does \
-                     not fit into an i64 and thus overflows `SignedDuration`",
-                    singular = self.smallest.singular(),
-                )
-            })?;
-        let subsec_nanos = rounded % t::NANOS_PER_SECOND;
+        // N.B. We want truncating division here, so that the seconds and
+        // the nanoseconds have the same sign. (Flooring division overflows
+        // for durations less than `SignedDuration::MIN + 1s`.)
+        let rounded = rounded.get();
+        let seconds = rounded / t::NANOS_PER_SECOND.value() as i128;
+        let seconds = i64::try_from(seconds).map_err(|_| {
+            err!(
+                "rounding `{dur:#}` to nearest {singular} in increments \
+                 of {increment} resulted in {seconds} seconds, which does \
+                 not fit into an i64 and thus overflows `SignedDuration`",
+                singular = self.smallest.singular(),
+            )
+        })?;
+        let subsec_nanos = rounded % t::NANOS_PER_SECOND.value() as i128;
         // OK because % 1_000_000_000 above guarantees that the result fits
         // in a i32.
         let subsec_nanos = i32::try_from(subsec_nanos).unwrap();
-        Ok(SignedDuration::new(seconds.get(), subsec_nanos))
+        Ok(SignedDuration::new(seconds, subsec_nanos))
     }
 }
 
